@@ -4,7 +4,7 @@ import gen
 
 PID = 'C02'
 RULE = ('each evaluation is one navigation history (length <= 40 quick / 60 thorough) over (step), (step n), (step "tid"), '
-        '(step tid.. n), (set-index i), (set-index/all i), (step (- INDEX)) with amounts in [-(N+2), N+2], on one trace and on two '
+        '(step tid.. n), (step tid.. <expression over tid^INDEX>), (set-index i), (set-index/all i), (step (- INDEX)) with amounts in [-(N+2), N+2], on one trace and on two '
         'traces of different lengths, with INDEX/TS/one signal observed after every operation; compared with a reference stepper '
         '(oracle) and with the extracted Coq model. distinct = distinct histories; non-trivial = history contains an out-of-range '
         'request and an in-range move')
@@ -42,7 +42,7 @@ def gen_case(rng, cid, two, length):
     for _ in range(length):
         n = rng.randrange(-(N + 2), N + 3)
         if two:
-            kind = rng.choice(['step', 'stepn', 'tid', 'tidn', 'tids', 'tidsym'])
+            kind = rng.choice(['step', 'stepn', 'tid', 'tidn', 'tids', 'tidsym', 'tidsexpr'])
         else:
             kind = rng.choice(['step', 'stepn', 'stepn', 'setindex', 'home', 'tid', 'tidn', 'setall'])
         before = dict(ref.idx)
@@ -62,6 +62,15 @@ def gen_case(rng, cid, two, length):
         elif kind == 'tids':
             order = tids[:] if rng.random() < 0.5 else tids[::-1]
             txt, ok = f'(step {order[0]} "{order[1]}" {n})', ref.step(order, n)
+        elif kind == 'tidsexpr':
+            # the amount is an expression over the position of the trace stepped first: it is evaluated once
+            order = tids[:] if rng.random() < 0.5 else tids[::-1]
+            x = order[0]
+            if rng.random() < 0.5:
+                ex, amount = f'(- {x}^INDEX)', -ref.idx[x]
+            else:
+                ex, amount = f'(- {x}^MAX-INDEX {x}^INDEX)', infos[x]['n'] - 1 - ref.idx[x]
+            txt, ok = f'(step {order[0]} "{order[1]}" {ex})', ref.step(order, amount)
         elif kind == 'setindex':
             i = rng.randrange(-2, N + 2)
             t = tids[0]
